@@ -26,7 +26,9 @@ THOROUGH = [
     dict(mode="ex", nmsgs=2, maxops=3, maxobjs=6, sizes="SizesSmall", shapes="ShapesSmall", complens="{2}", ops=OPS, limit=40000),
     dict(mode="sim", nmsgs=2, maxops=12, maxobjs=16, sizes="SizesAll", shapes="ShapesAll", complens="{0, 1, 2, 3}", ops=OPS, num=1500, per_prefix=2, limit=12000),
     dict(mode="sim", nmsgs=3, maxops=10, maxobjs=14, sizes="SizesAll", shapes="ShapesAll", complens="{1, 2}", ops=OPS, num=400, per_prefix=2, limit=3000),
-    dict(mode="ex", nmsgs=1, maxops=6, maxobjs=8, sizes="SizesTiny", shapes="ShapesTiny", complens="{1}", ops=OPS, plan="PlanCopy", limit=60000),
+    # (exhaustive enumeration of PlanCopy at 6 operations prints more behaviours than fit in memory: sampled instead)
+    dict(mode="sim", nmsgs=1, maxops=6, maxobjs=8, sizes="SizesTiny", shapes="ShapesTiny", complens="{1}", ops=OPS, plan="PlanCopy", num=5000, per_prefix=3, limit=40000),
+    dict(mode="sim", nmsgs=1, maxops=7, maxobjs=9, sizes="SizesSmall", shapes="ShapesTiny", complens="{1, 2}", ops=OPS, plan="PlanOverwrite", num=1500, per_prefix=2, limit=4000),
     dict(mode="sim", nmsgs=2, maxops=7, maxobjs=9, sizes="SizesTiny", shapes="ShapesTiny", complens="{1}", ops=OPS, plan="PlanCopy2", num=4000, per_prefix=3, limit=30000),
 ]
 ARENAS = [a for a in encpipe.ARENAS if a["name"] in ("std-single", "std-multi", "single-tight", "multi-1", "multi-2-3-reuse", "multi-3-1-2")]
